@@ -27,7 +27,11 @@ namespace
 template<typename PointType>
 void flipNormalTowardOriginCoordinate(const PointType & point, PointType & normal)
 {
-  if (normal.dot(point / point.norm()) > 0) {
+  // Only the cartesian part takes part in the orientation test: a normal is a direction, its
+  // homogeneous coordinate (if any) is zero whatever the normal set held before.
+  constexpr int DIM = romea::core::PointTraits<PointType>::DIM;
+  normal.template tail<PointType::RowsAtCompileTime - DIM>().setZero();
+  if (normal.template head<DIM>().dot(point.template head<DIM>() / point.norm()) > 0) {
     normal *= -1;
   }
 }
